@@ -619,14 +619,15 @@ prop(
     "two layers. (a) one case = one seeded run of the `interleave` world: root instances of all kinds (7 cipher types, block-API states, 24 hash types, 3 Threefish sizes incl. "
     "with_tweak and shared keys) in one thread, calls interleaved by the seeded scheduler at call granularity on a simulated host; afterwards every instance's own operations are "
     "replayed alone in a fresh world on a fresh thread and its transcript (per-instance event-log digest) must be identical; an inner check that fails only when interleaved is a violation too. "
-    "(b) one case = one cold process under a controlled scheduler: the thread workload (2-4 threads released by a barrier; in every workload ALL threads make the same kind of FIRST call - "
-    "the focus kind cycles over 37 operation kinds (hash types, ciphers, Threefish, block API, long single calls of several KiB) with the workload index, which one Miri seed selects together with the schedule - so that threads race on "
-    "whatever that call initialises lazily in a cold process; then short mixed histories on private instances) runs in a "
-    "fresh Miri interpreter per scheduler seed; Miri's seeded scheduler decides every preemption, its data-race/deadlock detector is on, and every result is compared with the "
-    "sequential one-at-a-time expectation computed natively. distinct_nontrivial = distinct abstract states of layer (a) (kind of instance, history length class, op kind) + underlying scenarios",
+    "(b) one case = one cold process under a controlled scheduler: one of 105 enumerated thread workloads (2-4 threads released by a barrier) - 74 first-call workloads (ALL threads make the same kind of FIRST call, "
+    "the focus kind cycling over 37 operation kinds: hash types, ciphers, Threefish, block API and bulk calls of several KiB - so that threads race on whatever that call initialises lazily in a cold process; "
+    "then repeats of identical calls / other entry points on private instances; in the bulk workloads the second and third thread call again while the first is still in its first call) "
+    "and 31 hammer workloads (three threads repeat one short call ten times alternating two arguments of their own) - runs in a "
+    "fresh Miri interpreter per (workload, scheduler seed, preemption rate); Miri's seeded scheduler decides every preemption, its data-race/deadlock detector is on, every result is compared with the "
+    "sequential one-at-a-time expectation computed natively, and any other failure is re-run with the threads one after the other to decide whether it needs overlapping threads. distinct_nontrivial = distinct abstract states of layer (a) (kind of instance, history length class, op kind) + underlying scenarios",
     [
         "layer (b) runs lazy_static, std::sync::Once, the Groestl AES-NI path (Miri's intrinsic shims) and the algorithm bodies on the PORTABLE ppv-lite86 backend (cfg(miri)); an intra-call race living only in ppv-lite86/src/x86_64 or in std's CPUID cache is not reachable by any controlled scheduler available here",
-        "one Miri scheduler seed = one exactly repeatable interleaving; seeds are sampled, not enumerated",
+        "one Miri scheduler seed = one exactly repeatable interleaving; workloads are enumerated, schedules (seed x preemption rate) are sampled: a shared value written with atomics shows only in the schedules that mix two writers (measured on a seeded change: 9 % of the schedules of the matching hammer workload)",
         "layer (a) interleaves at call granularity (a single-threaded caller cannot be preempted inside a call)",
     ],
     [
@@ -814,7 +815,7 @@ def run_property(pid, tier):
         extra = dict(extra or {}, streamed_for_real=stream_results)
         total_runs += len(stream_results)
     if spec.get("miri"):
-        extra = dict(extra or {}, miri_thread_layer=dict(cold_process_runs=miri_total, each_run="a fresh Miri interpreter (cold process: lazy_static tables, std feature cache and every Once uninitialised); 2-4 threads released by a barrier; every preemption decided by Miri's seeded scheduler; data-race and deadlock detection on",
+        extra = dict(extra or {}, miri_thread_layer=dict(cold_process_runs=miri_total, each_run="a fresh Miri interpreter (cold process: lazy_static tables, std feature cache and every Once uninitialised) for one enumerated workload; 2-4 threads released by a barrier; every preemption decided by Miri's seeded scheduler; data-race and deadlock detection on",
                                           workloads=miri_results))
         total_runs += miri_total
     if enumerated:
